@@ -120,7 +120,7 @@ def mk_read(t, dims, axes, variant='plain'):
         obl = [{'kind': 'copy', 'region': 'r', 'ns': 'a', 'map': [q * per + c for q in sel for c in range(per)]}]
         ref = ''
     else:                        # inside an arithmetic expression
-        wit = 'extern "C" void @W@(const %s& a, const %s& b, %s& r%s){ r = %s + b; }' % (tensor_t(t, dims), tensor_t(t, ext), tensor_t(t, ext), params, call)
+        wit = 'extern "C" void @W@(%s%s& a, const %s& b, %s& r%s){ r = %s + b; }' % ('' if variant == 'mexpr' else 'const ', tensor_t(t, dims), tensor_t(t, ext), tensor_t(t, ext), params, call)
         regions += [treg('b', t, ext), treg('r', t, ext, 'out'), rreg('rref', t, len(sel)), {'name': 'idx', 'ety': 'i32', 'cells': len(sel), 'kind': 'raw', 'role': 'in', 'init': 'ints', 'ints': sel}]
         ct = CTYPE[cell]
         ref = 'extern "C" void @R@(const %s* a, const %s* b, %s* r, const int* idx){ for(int k=0;k<%d;k++) for(int c=0;c<%d;c++) r[k*%d+c] = a[idx[k]*%d+c] + b[k*%d+c]; }' % (ct, ct, ct, len(sel), per, per, per, per)
@@ -173,6 +173,13 @@ def mk_write(t, dims, axes, op, rhs, src_axes=None, src_dims=None, noalias=False
         wparams += ', const %s& b' % tensor_t(t, ext); rparams += ', const %s* b' % ct
         wargs.append('b'); rargs.append('b')
         rhs_w, rhs_r = 'b', 'b[k]'
+    elif rhs in ('flat', 'flatexpr'):   # a right-hand side of a different rank with the same number of elements (the views have separate
+        # overloads for OTHER_DIMS != DIMS); elements correspond in row-major order
+        fe = [n] if len(ext) > 1 else [1, n]
+        regions.append(treg('b', t, fe))
+        wparams += ', const %s& b' % tensor_t(t, fe); rparams += ', const %s* b' % ct
+        wargs.append('b'); rargs.append('b')
+        rhs_w, rhs_r = ('b', 'b[k]') if rhs == 'flat' else ('(b + b)', '(b[k] + b[k])')
     elif rhs == 'expr':
         regions += [treg('b', t, ext), treg('c', t, ext)]
         wparams += ', const %s& b, const %s& c' % (tensor_t(t, ext), tensor_t(t, ext)); rparams += ', const %s* b, const %s* c' % (ct, ct)
